@@ -329,6 +329,11 @@ def check_r4(col: Collector, repo: Repo):
             "the duplicate test must be restricted to InjectCodeBlock entries: a job script, function or collection of the same name declared further out "
             "is not a duplicate, and whether it is met first depends only on where along the chain the metadata was attached", ok_fn.loc)
 
+    from sa.props._tr import import_obligations
+    import_obligations(col, "C14.R3", "c07", lambda o: "_inject_blocks" in o.construct and o.rule in ("C07.R1", "C07.R3"),
+                       "blocks kept in a cell that outlives the query (a class-level list, an attribute reset() does not re-create) are emitted "
+                       "again for every later query: `exactly once` and `only this query's blocks` both fail")
+
 
 def _flattening_comprehension(fn) -> bool:
     for c in ast.walk(fn):
